@@ -148,9 +148,13 @@ func ruleR32R33(c *Ctx) {
 									c.r.bad("R32", key, m.pos(x.Pos()), "reinterpretation involves a type that contains pointers", props...)
 								} else if sz.Sizeof(srcT) < sz.Sizeof(dstT) {
 									c.r.bad("R32", key, m.pos(x.Pos()), fmt.Sprintf("reads %d bytes from a %d-byte variable", sz.Sizeof(dstT), sz.Sizeof(srcT)), append(props, "C07")...)
+								} else if sz.Sizeof(srcT) > sz.Sizeof(dstT) {
+									// memory-safe, but the value is truncated to its low-address bytes: a codec
+									// that reads an 8-byte key through a 4-byte type loses half of it
+									c.r.bad("R32", key, m.pos(x.Pos()), fmt.Sprintf("reads only %d of the %d bytes of the variable: the reinterpreted value is truncated (and which half is read depends on the byte order of the target)", sz.Sizeof(dstT), sz.Sizeof(srcT)), append(props, "C07")...)
 								} else {
 									counts["P3 reinterpretation of a pointer-free local"]++
-									c.r.ok("R32", key, m.pos(x.Pos()), fmt.Sprintf("pointer-free, %d ≤ %d bytes", sz.Sizeof(dstT), sz.Sizeof(srcT)), append(props, "C07")...)
+									c.r.ok("R32", key, m.pos(x.Pos()), fmt.Sprintf("pointer-free, %d = %d bytes", sz.Sizeof(dstT), sz.Sizeof(srcT)), append(props, "C07")...)
 								}
 							} else if _, isTP := types.Unalias(tt).(*types.TypeParam); isTP {
 								counts["P2 typed view of a leaf through the leaf constraint (R06)"]++
